@@ -220,7 +220,7 @@ def gen_cases(run):
     from vlib.gen import mutate
     sources = corpus.all_sources(n_gen=run.n(2, 6), base_seed=run.seed * 1000)
     # container-aware hostile archives: valid signatures and checksums, counts that cannot be allocated
-    for name in ("7z-huge-file-count", "7z-huge-stream-count", "zip-huge-entry-count"):
+    for name in ("7z-huge-file-count", "7z-huge-stream-count", "zip-huge-entry-count", "7z-self-referential-encoded-header", "7z-encoded-header-chain"):
         sources.setdefault("zip", []).append(["synth", name])
     all_src = [(k, s) for k, v in sources.items() for s in v]
     per_base = run.n(24, 400)
